@@ -65,7 +65,22 @@ def cases(rng, tier):
         r = ragidx.rowsel_random(n, rng)
         c = ragidx.colsel_random(m, rng) if rng.random() < 0.65 else None
         add(lens, {"r": r, "c": c})
+    _long_row_cases(rng, add, 150 if tier == "quick" else 1500)
     return out
+
+
+def _long_row_cases(rng, add, n_cases):
+    """rows longer than a narrow integer can count (more than 127 / 255 cells), addressed by integer rows and integer columns of
+    either sign given as Python ints and as narrow numpy scalars"""
+    for _ in range(n_cases):
+        lens = [rng.choice([5, 130, 300, 3, 200, 0, 129]) for _ in range(rng.randint(2, 5))]
+        n = len(lens)
+        i = rng.randrange(n)
+        l = lens[i]
+        j = rng.choice([-1, -2, -l, -(l // 2) - 1, l - 1, l // 2, 127, 128, -128, -129, 255, 256]) if l else -1
+        add(lens, {"r": {"t": "int", "i": rng.choice([i, i - n])}, "c": {"t": "int", "i": j}}, dt="int64")
+        rows = [rng.randrange(n) for _ in range(rng.randint(1, 3))]
+        add(lens, {"r": {"t": "list", "is": rows}, "c": {"t": "int", "i": rng.choice([-1, -2, 0, 1, -3])}}, dt="int64")
 
 
 def key(p):
